@@ -40,6 +40,10 @@ pub struct Components { pub filler: u8 }
 impl Components {
     pub uninterp spec fn view(&self) -> Seq<Component>;
     #[verifier::external_body]
+    pub fn next(&mut self) -> (r: Option<Component>)
+        ensures r is Some == (old(self)@.len() > 0), r matches Some(c) ==> c == old(self)@[0],
+    { unimplemented!() }
+    #[verifier::external_body]
     pub fn any<F: FnMut(Component) -> bool>(self, f: F) -> (r: bool)
         requires forall|c: Component| #[trigger] f.requires((c,)),
         ensures
